@@ -168,6 +168,8 @@ impl<R: Round> Context<R> {
 
         let mut k: usize = 3;
         loop {
+            #[cfg(dashu_verif)]
+            dashu_base::verif::tick(dashu_base::verif::LOOP_IACOTH);
             pow *= &inv2;
 
             let increase = &pow / work_context.convert_int::<B>(k.into()).value();
@@ -283,6 +285,8 @@ impl<R: Round> Context<R> {
 
         let mut k: usize = 3;
         loop {
+            #[cfg(dashu_verif)]
+            dashu_base::verif::tick(dashu_base::verif::LOOP_LN);
             pow *= &z2;
 
             let increase = &pow / work_context.convert_int::<B>(k.into()).value();
